@@ -735,7 +735,7 @@ class Served(Family):
     the wire path: request line -> protocol -> middleware -> Router.route -> handler.  The property is judged against
     the directory the written root IS for the operating system."""
     name = "served"
-    quick_n = 1200
+    quick_n = 800
     thorough_n = 20000
 
     def setup(self):
